@@ -150,6 +150,8 @@ func (p *planner) settle() {
 // apply performs one environment action; false = not enabled (nothing changed).
 func (p *planner) apply(s *step) bool {
 	s.inWaitW = -1
+	s.absCmd, s.awaitAbsent = 0, nil
+	defer func() { s.awaitSends, s.awaitDone, s.awaitResp = p.sends, p.done, p.resp }()
 	var before map[int]int
 	beforeCmd := 0
 	if p.cur != nil {
@@ -231,8 +233,6 @@ func (p *planner) apply(s *step) bool {
 		return false
 	}
 	p.settle()
-	s.awaitSends, s.awaitDone, s.awaitResp = p.sends, p.done, p.resp
-	s.absCmd, s.awaitAbsent = 0, nil
 	if before != nil {
 		s.absCmd = beforeCmd
 		for t := range before {
@@ -255,9 +255,6 @@ func annotate(steps []step) (*planner, []step) {
 	for _, s := range steps {
 		s2 := s
 		p.apply(&s2) // a disabled action stays in the script: the model ignores it as well
-		if s2.awaitSends == 0 && s2.awaitDone == 0 && s2.awaitResp == 0 {
-			s2.awaitSends, s2.awaitDone, s2.awaitResp = p.sends, p.done, p.resp
-		}
 		out = append(out, s2)
 	}
 	return p, out
@@ -502,7 +499,12 @@ func classifyEntry(resp cc.MesosCommandResponse, id xid.ID, t cc.MesosCommandTar
 	return entryObs{Kind: "timeout"} // any other error: "did not answer" class
 }
 
-func (r *runner) classify(id int, v cc.MesosCommandResponse) resultObs {
+func (r *runner) classify(id int, v cc.MesosCommandResponse) (res resultObs) {
+	defer func() {
+		if recover() != nil {
+			res = resultObs{Kind: "bad"}
+		}
+	}()
 	if v == nil {
 		return resultObs{Kind: "nil"}
 	}
@@ -574,8 +576,8 @@ func runScript(steps []step, T time.Duration) (observation, bool) {
 			}
 			cmd := cc.NewMesosCommand("verif", envId, tl, nil)
 			cmd.ResponseTimeout = T
+			cmd.Id = r.xidOf(s.Cmd) // an "early" reply already used this id
 			r.mu.Lock()
-			r.xids[s.Cmd] = cmd.Id
 			r.cmds[s.Cmd] = append([]int(nil), s.Targets...)
 			r.order = append(r.order, s.Cmd)
 			r.mu.Unlock()
